@@ -50,8 +50,8 @@ def run(ctx, prop):
         ctx.assumptions += ["nil and empty header maps / bodies are identified (gob cannot distinguish them)", "text fields contain no CR (encoding/csv normalises CRLF)",
                             "header values have no leading/trailing blanks (MIME parsing trims them)"]
     if prop == "C09":
-        ctx.coverage.update({"evaluations": summ["cuts"], "distinct_nontrivial": summ["cuts"], "exhaustive": ctx.thorough,
+        ctx.coverage.update({"evaluations": summ["cuts"], "distinct_nontrivial": summ["cuts"], "exhaustive": False,
                              "rule": "one evaluation = decoding one prefix [0,cut) of one generated stream (1-6 heterogeneous records, bodies up to 70 KB) "
-                                     "with a whole-buffer or one-byte reader; gob/JSON: every byte offset (quick: strided above 8 KiB but every offset within "
-                                     "70 bytes of each record boundary), CSV: every record boundary; all (stream, cut, reader) triples are distinct"})
+                                     "with a whole-buffer or one-byte reader; gob/JSON: every byte offset of streams up to 8 KiB (quick) / 16 KiB (thorough), strided beyond "
+                                     "but always every offset within 70 bytes of each record boundary, CSV: every record boundary; all (stream, cut, reader) triples are distinct"})
     return LEVEL[prop]
